@@ -63,6 +63,28 @@ def check(run):
     a["pathElements"] = [P - 1] * 20; A.append(a)
     for _ in range(6 if quick else 200):
         A.append(base())
+    # algebraically special INTERNAL values: the sibling at level j equals the running node hash + d (d = 0, 1, -1, 2), so that the
+    # difference feeding the Merkle multiplexer's multiplication is exactly 0 / 1 / -1 in either operand order; likewise x = 1, 0
+    # (second operand of a1 * x) — shortcuts in an operator for operands 0 / 1 show only here
+    from lib import rlngen
+    special = []
+    levels = [0, 1, 19] if quick else [0, 1, 2, 5, 10, 18, 19]
+    for j in levels:
+        for d in ([1, P - 1] if quick else [0, 1, P - 1, 2]):
+            for bit in (0, 1):
+                a = base(); a["identityPathIndex"][j] = bit
+                special.append((a, j, d))
+    hs = rlngen.poseidon(zkh, [[a["identitySecret"][0]] for a, _, _ in special])
+    hs = rlngen.poseidon(zkh, [[h, a["userMessageLimit"][0]] for h, (a, _, _) in zip(hs, special)])
+    for lvl in range(20):
+        for h, (a, j, d) in zip(hs, special):
+            if j == lvl:
+                a["pathElements"][lvl] = (h + d) % P
+        hs = rlngen.poseidon(zkh, [([h, a["pathElements"][lvl]] if a["identityPathIndex"][lvl] == 0 else [a["pathElements"][lvl], h])
+                                   for h, (a, _, _) in zip(hs, special)])
+    A += [a for a, _, _ in special]
+    for v in (0, 1):
+        a = base(); a["x"] = [v]; A.append(a)
     # assignments the reference generator must reject (the partition of C12): they are NOT compared, only counted
     U = []
     for lim, mid in [(100, 100), (70000, 1), (2**17, 2**16), (0, 0)]:
@@ -112,5 +134,5 @@ def check(run):
                 run._corr.append({"stream": "bundled", "sequence": [flat[2 * k][:300]], "impl": i1[:200], "model": model[2 * k][:200]})
     run.cov["impl_vs_spec_failures"] += bad
     run.sample({"assignment": {k: [hex(v) for v in A[0][k]][:3] for k in NAMES}, "witness_prefix": impl[0][:160]})
-    run.rules.append("assignments of the 46 inputs: limb-boundary and near-modulus values in each field position (sampled positions in quick), one-hot / all-zero / all-one direction patterns, message ids 0 / limit-1 for limits 1, 2, 2^16, all-zero and all-(p-1) vectors, random ones; for each the COMPLETE 5844-element witness of calculate_rln_witness is compared with the reference generator rln.wasm (node) and with the Lean model's evaluation of the regenerated graph, and recomputed with the named inputs in a shuffled order; distinct = distinct assignment")
+    run.rules.append("assignments of the 46 inputs: limb-boundary and near-modulus values in each field position (sampled positions in quick), one-hot / all-zero / all-one direction patterns, message ids 0 / limit-1 for limits 1, 2, 2^16, all-zero and all-(p-1) vectors, random ones, and assignments chosen so that an INTERNAL multiplication operand is exactly 0 / 1 / -1 (sibling = running hash + d at a level, both directions; x in {0,1}); for each the COMPLETE 5844-element witness of calculate_rln_witness is compared with the reference generator rln.wasm (node) and with the Lean model's evaluation of the regenerated graph, and recomputed with the named inputs in a shuffled order; distinct = distinct assignment")
     run.cov["distinct_nontrivial"] = run.cov["distinct_nontrivial"]
